@@ -262,3 +262,14 @@ Definition verdict_c01 (c : ncase) : N :=
     else true in
   (if mismatch then 1 else 0) + (if ok && back then 0 else 2) + (if back then 0 else 256).
 Definition verdicts_c01 (cs : list ncase) : list N := map verdict_c01 cs.
+
+(** * C01, last sentence: joinable segments imply an offered path (oracle on the
+    implementation: real registry + real combinator) *)
+Record jcase := mkJCase { j_src : N; j_dst : N; j_cores : list N; j_segs : list (list N); j_offered : N }.
+Definition jverdict (c : jcase) : N :=
+  let j := joinable (j_src c) (j_dst c) (j_cores c) (j_segs c) in
+  (if j && (j_offered c =? 0) then 2 else 0)
+  (* diagnostics (ignored by the driver): 256 = not joinable by the specification's rules
+     (then nothing is demanded), 512 = ... although paths are offered (peering-only routes) *)
+  + (if j then 0 else 256) + (if negb j && negb (j_offered c =? 0) then 512 else 0).
+Definition jverdicts (cs : list jcase) : list N := map jverdict cs.
